@@ -133,9 +133,14 @@ Inductive out :=
    (JWT access tokens name the actor token's subject, ID tokens carry no act), none at all, a
    mapped actor id, an actor chain. *)
 Inductive actpol := ActDefault | ActNone | ActMapped | ActChain.
+(* p_late: the veto POINT.  Every storage refuses a request with scope "veto" in its first hook
+   (ValidateTokenExchangeRequest); a storage may also refuse in its SECOND hook
+   (CreateTokenExchangeRequest: persisting / audit / a late policy step) - requests whose decided
+   scopes contain "late" - with a plain error or with an OAuth error (an oidc.Error value). *)
+Inductive latepol := LateNone | LatePlain | LateOAuth.
 Record tepolicy := TEPolicy { p_default : bool; p_force : option ttype; p_subject : option string; p_empty : bool;
                               p_verifier : bool; p_session : option string; p_act : actpol;
-                              p_nologout : string }.
+                              p_nologout : string; p_late : latepol }.
   (* p_nologout: a client whose sessions the from-request storage FAILS to end
      (TerminateSessionFromRequest returns an error for it); "" = none *)
 Inductive hist_input := Hist (clients : list client) (pol : tepolicy) (ops : list (nat * bool * gop ptok)).
@@ -483,6 +488,16 @@ Definition decided_act (pol : tepolicy) (jwt_at : bool) (asub : string) : string
     end
   else "".
 
+(* the second storage hook refuses *)
+Definition late_refuses (pol : tepolicy) (scopes : list string) : bool :=
+  match p_late pol with
+  | LateNone => false
+  | _ => string_in "late" (decided_scopes pol scopes)
+  end.
+(* a storage veto, at either hook *)
+Definition vetoed (pol : tepolicy) (scopes : list string) : bool :=
+  string_in "veto" scopes || late_refuses pol scopes.
+
 Definition exchange (cl : list client) (r : router) (s : st) (c : cred) (subj : tokstr) (styp : ttype)
     (actor : option (tokstr * ttype)) (req : ttype) (scopes aud : list string) : st * out :=
   let (g, nx) := s in
@@ -510,7 +525,9 @@ Definition exchange (cl : list client) (r : router) (s : st) (c : cred) (subj : 
               let actor_given := nonempty asub || match aid with NoId => false | _ => true end in
               if negb (x_live g styp sid_) then storage_err
               else if actor_given && negb (x_live g atyp aid) then storage_err
-              else if string_in "veto" scopes then storage_err
+              else if vetoed (policy g) scopes then
+                (if string_in "veto" scopes then storage_err          (* first hook: a plain error *)
+                 else match p_late (policy g) with LateOAuth => e400 | _ => storage_err end)
               else
                 let sc := decided_scopes (policy g) scopes in
                 let ssub := decided_subject (policy g) ssub in
